@@ -520,13 +520,18 @@ type requestSender struct {
 }
 
 func (r *requestSender) Send(writer io.Writer) error {
+	// The frame belongs to the request (or to the prepared cache) and may be on its way out on another connection
+	// at the same time (a retry, or a re-prepare of the same statement): give it this connection's stream id on a
+	// copy of the header instead of writing to the shared one.
 	switch frm := r.request.Frame().(type) {
 	case *frame.Frame:
-		frm.Header.StreamId = r.stream
-		return r.conn.getCodec().EncodeFrame(frm, writer)
+		hdr := *frm.Header
+		hdr.StreamId = r.stream
+		return r.conn.getCodec().EncodeFrame(&frame.Frame{Header: &hdr, Body: frm.Body}, writer)
 	case *frame.RawFrame:
-		frm.Header.StreamId = r.stream
-		return r.conn.getCodec().EncodeRawFrame(frm, writer)
+		hdr := *frm.Header
+		hdr.StreamId = r.stream
+		return r.conn.getCodec().EncodeRawFrame(&frame.RawFrame{Header: &hdr, Body: frm.Body}, writer)
 	default:
 		return errors.New("unhandled frame type")
 	}
